@@ -5,6 +5,7 @@
    (selector_acts), corresponded against the real restorer on import-managed cases. *)
 From Coq Require Import List String ZArith NArith Bool.
 Import ListNotations.
+From DV Require Import Model.Decision Gen.DecisionSrc Proofs.RestoreIdentProofs.
 From DV Require Import Model.Tree Model.Tables Model.Restore Model.Merge Model.Imports
      Proofs.RestoreProofs Proofs.MergeProofs Proofs.ImportsProofs
      Model.MergeProg Gen.MergeSrc Proofs.MergeSrcProofs.
@@ -95,6 +96,26 @@ Example C08_merge_source_runs :
   /\ merge false items = [DLine 3 1; DNl; DBlock 4 [] 2].
 Proof. vm_compute. split; reflexivity. Qed.
 
+
+(* restoreIdent decides which identifiers come back as package.Name and under which name.  Its decision part
+   is translated on every run (the conditional assignments to `name` fork the rest of the function; the
+   statements that build the selector are pinned against the model's selector_acts and form one outcome) and
+   proved, for every input, to compute: panic without a resolver or at an illegal position; a bare identifier
+   when there is no path, the path is the restorer's own, or the chosen name is empty (dot-import); otherwise
+   a selector on exactly the name updateImports chose for the path -- which is the choice the restorer
+   model makes at an identifier (node_acts) *)
+Theorem C08_restoreIdent_source_computes_the_model :
+  (forall resolver_nil path_empty avoid_hit same_path pname,
+    ident_outcome pname (run (ident_val resolver_nil path_empty avoid_hit same_path pname) restoreident_src)
+    = Some (restore_ident_mode resolver_nil path_empty avoid_hit same_path pname)) /\
+  (forall managed pu_zero same_path pname,
+    erase (restore_ident_mode (negb managed) pu_zero false same_path pname)
+    = node_acts_mode managed pu_zero (pk_of same_path pname)).
+Proof. split; [exact restoreident_source_is_model | exact restore_ident_mode_is_the_models_choice]. Qed.
+
+Theorem C08_restoreIdent_source_is_within_the_vocabulary : restoreident_vocabulary_ok = true.
+Proof. vm_compute. reflexivity. Qed.
+
 Print Assumptions C08_collapse_keeps_every_comment.
 Print Assumptions C08_merged_spacing_renders_the_same_line_breaks.
 Print Assumptions C08_imports_untouched_when_nothing_changes.
@@ -102,3 +123,5 @@ Print Assumptions C08_mergeDecorations_source_computes_the_model.
 Print Assumptions C08_merge_source_is_within_the_language.
 Print Assumptions C08_merge_calls_are_the_models.
 Print Assumptions C08_merge_source_runs.
+Print Assumptions C08_restoreIdent_source_computes_the_model.
+Print Assumptions C08_restoreIdent_source_is_within_the_vocabulary.
